@@ -259,7 +259,7 @@ _mk("C20",
     extra_tb=["cobra, influxdb1-client, encoding/json, zap (observed through the binary)"], exhaustive=False)
 
 _mk("C18",
-    ["Platypus.Properties.C18"],  # + "Platypus.Properties.C18Agree" once its proofs follow the nil-bound model change
+    ["Platypus.Properties.C18", "Platypus.Properties.C18Agree"],
     rule="v2 engine (engine.ParseV2 + Script.Run) with probe functions supplied through the function table (p records, pr records and returns its first argument, void returns nothing, multi returns two values, len): "
          "33 consuming positions (assignment source, condition, operands, arguments, loop clauses, iterable, list/map elements and keys, index, every slice bound, unary, membership, compound assignment, multi-assignment, parenthesis) "
          "x 9 constructs (void call, attribute expression, multi-value calls, empty pr, variable, literal, undefined name, nil); multi-assignment programs; random programs of the shared language "
@@ -268,5 +268,5 @@ _mk("C18",
               "register-discipline theorems (value positions demand exactly one register value; calls and attribute expressions reset the registers; multi-assignment evaluates the right side first) + consuming-position matrix and block-scope correspondence",
     level_text="Kernel-checked properties of the register machine model: a construct that yields no value leaves the registers empty and every value position then reports an error instead of reading an earlier value; "
                "the model is tied to run.go by the position x construct matrix and random programs.",
-    level_note="script_agree/stmts_agree/expr_agree are about the two models; each is tied to its implementation by correspondence. Outside the fragment the models differ in named, proved ways (compound index assignment on a non-collection, `_` as a name, void values, undefined names in compound assignment: theorems *_difference); ill-tagged scope values and non-empty points are excluded by hypotheses (NoKeys, NonNil slice bounds).",
+    level_note="script_agree/stmts_agree/expr_agree are about the two models; each is tied to its implementation by correspondence. Outside the fragment the models differ in named, proved ways (compound index assignment on a non-collection, `_` as a name, void values, undefined names in compound assignment: theorems *_difference); ill-tagged start states (a variable holding a void or mistagged value) and non-empty points are excluded by hypotheses (ScopesOK, NoKeys); void_bound_needs_tagging shows the first is needed.",
     extra_tb=[TB_FLOAT], exhaustive=False)
